@@ -2,7 +2,14 @@
 
 package geom
 
+import (
+	"math"
+	"strconv"
+)
+
 func init() {
+	vfHarnesses["C05_numerals"] = vfhC05Numerals
+	vfHarnesses["C05_numerals_long"] = vfhC05NumeralsLong
 	vfHarnesses["C05_roundtrip_simple"] = vfhC05RoundTripSimple
 	vfHarnesses["C05_roundtrip_multi"] = vfhC05RoundTripMulti
 	vfHarnesses["C05_respell"] = vfhC05Respell
@@ -128,5 +135,134 @@ func vfhC05Respell() {
 	vfAssert(err != nil, "a trailing token is rejected")
 	_, err = UnmarshalWKT(txt+")", NoValidate{})
 	vfAssert(err != nil, "a trailing parenthesis is rejected")
+	vfReach("end")
+}
+
+// Numerals as text: the X ordinate of POINT(<N> 7) is a string of up to maxLen
+// symbolic bytes over the alphabet 0 1 7 . e E + - ; the real lexer
+// (text/scanner) and parser run on the symbolic bytes, strconv runs on each
+// concrete spelling that remains. A spelling of the form
+// (0|[17][017]*)(.[017]*)?([eE][+-]?[017]+)? or .[017]+([eE][+-]?[017]+)?
+// (optionally after a minus sign) must parse to exactly the float64 strconv
+// gives for it - or be rejected when that is infinite; whatever the bytes are,
+// there is no panic and an accepted text never yields a non-finite ordinate.
+func vfhC05Numerals()     { vfNumerals(4) }
+func vfhC05NumeralsLong() { vfNumerals(5) }
+
+func vfNumerals(maxLen int) {
+	n := vfInt("len", 1, maxLen)
+	bs := make([]byte, n)
+	for k := range bs {
+		b := vfByte("b")
+		vfAssume(vfOr(vfOr(vfOr(b == '0', b == '1'), vfOr(b == '7', b == '.')), vfOr(vfOr(b == 'e', b == 'E'), vfOr(b == '+', b == '-'))))
+		bs[k] = b
+	}
+	neg := false
+	body := bs
+	if bs[0] == '-' {
+		neg = true
+		body = bs[1:]
+	}
+	// recogniser (branches on the bytes: one path per class sequence)
+	const (
+		start = iota
+		zero  // a single leading 0
+		intp  // integer digits
+		dot0  // leading '.', needs a digit
+		frac  // after the point (digits optional when an integer part exists)
+		exp0  // after e/E, sign or digit expected
+		exp1  // after the sign, digit expected
+		expd  // exponent digits
+		bad
+	)
+	st := start
+	for _, c := range body {
+		digit := c == '0' || c == '1' || c == '7'
+		switch st {
+		case start:
+			switch {
+			case c == '0':
+				st = zero
+			case digit:
+				st = intp
+			case c == '.':
+				st = dot0
+			default:
+				st = bad
+			}
+		case zero:
+			switch {
+			case c == '.':
+				st = frac
+			case c == 'e' || c == 'E':
+				st = exp0
+			default:
+				st = bad // 00, 01: octal-looking spellings are left to the "no panic" clause
+			}
+		case intp:
+			switch {
+			case digit:
+			case c == '.':
+				st = frac
+			case c == 'e' || c == 'E':
+				st = exp0
+			default:
+				st = bad
+			}
+		case dot0:
+			if digit {
+				st = frac
+			} else {
+				st = bad
+			}
+		case frac:
+			switch {
+			case digit:
+			case c == 'e' || c == 'E':
+				st = exp0
+			default:
+				st = bad
+			}
+		case exp0:
+			switch {
+			case digit:
+				st = expd
+			case c == '+' || c == '-':
+				st = exp1
+			default:
+				st = bad
+			}
+		case exp1, expd:
+			if digit {
+				st = expd
+			} else {
+				st = bad
+			}
+		}
+	}
+	wellFormed := st == zero || st == intp || st == frac || st == expd
+	txt := "POINT(" + string(bs) + " 7)"
+	g, err := UnmarshalWKT(txt)
+	if err == nil {
+		xy, ok := g.MustAsPoint().XY()
+		vfAssert(g.IsPoint() && ok && vfFinite(xy.X) && (xy.Y == 7 || xy.Y == -7), "an accepted text is a point with finite ordinates (a trailing minus sign belongs to the next numeral)")
+	}
+	if wellFormed {
+		want, perr := strconv.ParseFloat(string(body), 64)
+		if perr != nil || math.IsInf(want, 0) {
+			vfAssert(err != nil, "a numeral out of float64 range is rejected")
+			vfReach("out-of-range")
+		} else {
+			vfAssert(err == nil, "a well-formed numeral (plain, fraction, exponent with or without sign) is accepted")
+			if neg {
+				want = -want
+			}
+			xy, _ := g.MustAsPoint().XY()
+			vfAssert(math.Float64bits(xy.X) == math.Float64bits(want), "and denotes the float64 strconv gives for that spelling")
+			vfReach("accepted")
+		}
+	} else if err != nil {
+		vfReach("rejected")
+	}
 	vfReach("end")
 }
